@@ -16,7 +16,7 @@ ASSUME = [
     "implicit conversion into the common point unit and the min-origin/integrality of CommonPointUnitT are C10 and are "
     "checked here by correspondence + Fraction oracle only)",
     "point +/- quantity and the forbidden operations are checked by compile probes / not modelled in Lean",
-    "operator<=> on points converts each operand in its own rep (finding F11, point flavour): such cases are PENDING",
+    "operator<=> on points converts through the common rep since the fix of F11/F17 (C09_spaceship, regression guard C09_F11_fixed_spaceship)",
 ]
 
 
@@ -24,10 +24,7 @@ def main(tier, seed):
     t0 = time.time()
     wd = workdir(PROP)
     proof = prove(PROP)
-    cov, viol, pending = pointops.explore(PROP, tier, seed, rng_for(PROP, seed), wd)
-    if pending:
-        print(f"PENDING-FINDING: property={PROP} F11 (point flavour): QuantityPoint operator<=> converts each operand in its own rep "
-              f"({len(pending)} matching case(s) this run); e.g. {json.dumps(pending[0]['rec'], default=str)[:300]}")
+    cov, viol = pointops.explore(PROP, tier, seed, rng_for(PROP, seed), wd)
     return finish(PROP, tier, seed, t0, proof, cov, viol, ASSUME)
 
 
